@@ -231,12 +231,20 @@ func (dec *msgAppV2Decoder) decode() (raftpb.Message, error) {
 			return m, err
 		}
 		l := binary.BigEndian.Uint64(dec.uint64buf)
-		m.Entries = make([]raftpb.Entry, int(l))
+		// each entry takes at least the 8 bytes of its length on the stream
+		if l > readBytesLimit/8 {
+			return m, ErrExceedSizeLimit
+		}
+		m.Entries = make([]raftpb.Entry, 0, minUint64(l, 1024))
 		for i := 0; i < int(l); i++ {
 			if _, err := io.ReadFull(dec.r, dec.uint64buf); err != nil {
 				return m, err
 			}
 			size := binary.BigEndian.Uint64(dec.uint64buf)
+			if size > readBytesLimit {
+				return m, ErrExceedSizeLimit
+			}
+			m.Entries = append(m.Entries, raftpb.Entry{})
 			var buf []byte
 			if size <= msgAppV2BufSize {
 				buf = dec.buf[:size]
@@ -266,6 +274,9 @@ func (dec *msgAppV2Decoder) decode() (raftpb.Message, error) {
 		if err := binary.Read(dec.r, binary.BigEndian, &size); err != nil {
 			return m, err
 		}
+		if size > readBytesLimit {
+			return m, ErrExceedSizeLimit
+		}
 		var buf []byte
 		if size <= msgAppV2BufSize {
 			buf = dec.buf[:size]
@@ -291,4 +302,11 @@ func (dec *msgAppV2Decoder) decode() (raftpb.Message, error) {
 		return m, fmt.Errorf("failed to parse type %d in msgappv2 stream", typ)
 	}
 	return m, nil
+}
+
+func minUint64(a, b uint64) uint64 {
+	if a < b {
+		return a
+	}
+	return b
 }
